@@ -27,6 +27,11 @@ def check(ctx):
         return rtcat.c_vs_ref(f["C"], a)
     core.scan(ctx, envs, run, ("bounds",), t3_skip, lambda sid, f, a: " " in bytes.fromhex(f["_hex"] if f["_hex"] != "-" else "").decode("utf8", "replace"),
               "implicit skipping off its spec (runtime repetition / sequence)")
+    # the never-failing entry points of the MIN = 0 repetitions (NeverFailedTypedNode::parse_with / check_with: separate loops the
+    # generator uses only for the implicit-skip node itself) with SKIP in 0..3: skips between the units only, never before the first
+    # (seeded C07-A6: check_with started its unit index at 1, so the skip ran at the start); theorem C07_never_failing_entry_points
+    from .. import skipn
+    skipn.check_never_failed(ctx, 5 if ctx.tier == "quick" else 7)
     from .C20 import raw_path
     raw_path(ctx, ctx.tier)          # atomicity / skipping under the un-optimized generator path (pest_optimizer = false)
     ctx.known = [k for k in ctx.known if "optimizer_rewrote_rule" not in k]
